@@ -120,6 +120,51 @@ def copied_memos(ctx, modname):
     return looked, hits
 
 
+def shared_cached_objects(ctx):
+    """`@lru_cache` / `@cache` on a function that builds an object: every caller gets the *same* object.  That is only safe for
+    immutable results; here callers go on to change what they got (`point.__class__ = cls`, `point.add_raw_path_data(...)`), so
+    the second record parsed for a key rewrites the first.  -> (decorated functions, [(module, function, decorated name, node)])"""
+    repo = ctx.repo
+    cached = {}  # function name -> (module, qualname)
+    for mn, mod in repo.modules.items():
+        for qn, fn in mod.functions.items():
+            for d in fn.decorator_list:
+                t = ast.unparse(d.func if isinstance(d, ast.Call) else d)
+                if t.split(".")[-1] in ("lru_cache", "cache", "cached_property", "memoize"):
+                    cached[fn.name] = (mn, qn)
+    if not cached:
+        return 0, []
+    # wrappers: functions that just return a call of a cached function
+    for _ in range(3):
+        for mn, mod in repo.modules.items():
+            for qn, fn in mod.functions.items():
+                if fn.name in cached:
+                    continue
+                rets = [r for r in ast.walk(fn) if isinstance(r, ast.Return) and r.value is not None]
+                if rets and all(isinstance(r.value, ast.Call) and isinstance(r.value.func, ast.Attribute) and r.value.func.attr in cached
+                                or (isinstance(r.value, ast.Call) and isinstance(r.value.func, ast.Name) and r.value.func.id in cached) for r in rets[-1:]):
+                    if any(isinstance(r.value, ast.Call) and (getattr(r.value.func, "attr", None) in cached or getattr(r.value.func, "id", None) in cached) for r in rets):
+                        cached[fn.name] = cached[(rets[-1].value.func.attr if isinstance(rets[-1].value.func, ast.Attribute) else rets[-1].value.func.id)]
+    hits = []
+    for mn, mod in repo.modules.items():
+        for qn, fn in mod.functions.items():
+            got = {}
+            for st in ast.walk(fn):
+                if isinstance(st, ast.Assign) and len(st.targets) == 1 and isinstance(st.targets[0], ast.Name) and isinstance(st.value, ast.Call):
+                    f = st.value.func
+                    nm = f.attr if isinstance(f, ast.Attribute) else (f.id if isinstance(f, ast.Name) else None)
+                    if nm in cached:
+                        got[st.targets[0].id] = nm
+            if not got:
+                continue
+            for st in ast.walk(fn):
+                if isinstance(st, ast.Assign):
+                    for t in st.targets:
+                        if isinstance(t, ast.Attribute) and isinstance(t.value, ast.Name) and t.value.id in got:
+                            hits.append((mod, fn, cached[got[t.value.id]], st))
+    return len(cached), hits
+
+
 def state_blind_caches(ctx, modname, only_prefix):
     """methods (of the classes named by only_prefix) that compute a value from the object's *current* fields, keep it in
     `self.<A>` the first time (`if self.A is None: self.A = f(self.fields)`) and answer from `self.A` afterwards: later changes
@@ -182,6 +227,16 @@ def memo_obligation(ctx, modnames, what):
         for mod, fn, attr, p, n in hits:
             out.append(ctx.bad("%s:%s" % (mn, fn.name), "`self.%s` caches a value computed from the argument `%s` and is returned on later calls whatever the argument is "
                                                         "(%s)" % (attr, p, what), n.ast, mod, key="param-blind-cache:" + attr))
+        if mn == modnames[0]:
+            nd, shits = shared_cached_objects(ctx)
+            seen_sh = set()
+            for mod2, fn2, (cm, cq), n2 in shits:
+                if (cm, cq, fn2.name) in seen_sh:
+                    continue
+                seen_sh.add((cm, cq, fn2.name))
+                out.append(ctx.bad("%s:%s" % (cm, cq), "the result of the memoised %s.%s is one shared object, and %s goes on to change it (`%s`): two records that name the same "
+                                                       "key alias each other, the later one overwrites the earlier one's data (%s)" % (cm, cq, fn2.name, ast.unparse(n2)[:50], what),
+                                   n2, mod2, key="shared-cached-object:" + cq))
         c_, chits = copied_memos(ctx, mn)
         looked += c_
         for mod, fn, attr, n in chits:
